@@ -8,6 +8,8 @@
 (*     HTTP/3 server running the same masquerade handler on this request.   *)
 (*  StreamOutcome(conn, op, cls, oracle)  what a raw 0x401 stream observed  *)
 (*     ("silent", "reset:<code>", "closed:<code>", "bytes") vs the oracle   *)
+(*  DgramRecv(conn, n)  the raw peer received a QUIC datagram of n bytes    *)
+(*     from the server (a stock web server never sends one)                 *)
 (*  AuthCall(conn, ok)  as in C01 (tells which connections are accepted)    *)
 EXTENDS Mon
 
@@ -36,5 +38,7 @@ MonStep(m, e, ln) ==
          [m EXCEPT !.viol = VAll(m.viol, e, ln,
             << <<"NoProtocolReply", un /\ e.cls = "bytes">>,
                <<"NoProtocolReply_DiffersFromWebServer", un /\ e.cls # e.oracle>> >>)]
+    [] e.ev = "DgramRecv" ->
+         [m EXCEPT !.viol = V(@, e, ln, "NoProtocolReply_Datagram", e.conn \notin m.accepted)]
     [] OTHER -> m
 ===========================================================================
